@@ -67,6 +67,12 @@ def shapes(tier, seed):
                     for _ in range(2):
                         vl = tuple(rnd.choice(vals) for _ in arr)
                         out.append(('creq', tuple(zip(arr, vl)), tuple(sorted(signed))))
+    # names related by prefix whose next byte sorts below / above ':' and ',' (order is by NAME, not by rendered line)
+    for n1, n2 in (('a-hdr', 'a-hdr-x'), ('a-hdr', 'a-hdr2'), ('a-hdr', 'a-hdr.v'), ('a-hdr', 'a-hdrz'), ('a-hdr', 'a-hdr_')):
+        for first, second in ((n1, n2), (n2, n1)):
+            for vl in ((1, 1), (0, 2), (2, 0)) if q else itertools.product((0, 1, 2), repeat=2):
+                out.append(('creq', (('host', 1), (first, vl[0]), (second, vl[1])), tuple(sorted(['host', n1, n2]))))
+                out.append(('creq', ((first, vl[0]), (second, vl[1]), ('host', 1)), tuple(sorted([n1, n2]) + ['host']) if False else tuple(sorted(['host', n1, n2]))))
     return sorted(set(out), key=repr)
 
 
